@@ -179,7 +179,8 @@ EvEnd ==
      /\ Check("C05", "CountIsActual", (run.mode = "edit" /\ e.count >= 0) => e.count = Cardinality(new), [count |-> e.count, new |-> new])
      (* C06 *)
      /\ Check("C06", "FixpointCheck", (run.mode = "check" /\ clean /\ normal /\ ~interrupted /\ ~faulted) => e.exit = 0, e.exit)
-     /\ Check("C06", "FixpointEdit", (run.mode = "edit" /\ clean /\ normal /\ ~faulted) => (post = pre /\ e.lock = run.preLock),
+     /\ Check("C06", "FixpointEdit", (run.mode = "edit" /\ clean /\ normal /\ ~faulted) =>
+                                        (post = pre /\ e.lock = run.preLock /\ \A f \in DOMAIN e.cls : e.cls[f] \in {"orig", "gone"}),
               [lock |-> e.lock, prelock |-> run.preLock])
      /\ Check("C06", "ReadBackExact", (run.mode = "edit" /\ NoLockUsed(run.preLock, run.cache)) =>
                                         \A x \in Ids(new) : \A r \in RefsOf(pre) : x > r, [new |-> new])
